@@ -905,6 +905,76 @@ func main() {
 ]
 
 
+# ------------------------------------------------------------------ the ONLY non-print use of fmt sits in a type position
+
+def type_position_family():
+    """[(name, go source)]: print calls that become builtins next to exactly one other reference to the fmt import,
+    in each type position in turn; the import must survive the conversion (behaviour only)."""
+    head = """package main
+
+import "fmt"
+
+type N int
+
+func (n N) String() string { return "N" }
+
+"""
+    pos = {
+        "type-assertion": ("", """	var v interface{} = N(1)
+	if s, ok := v.(fmt.Stringer); ok {
+		fmt.Println("assert", s.String())
+	}
+"""),
+        "type-switch-case": ("", """	var v interface{} = N(1)
+	switch s := v.(type) {
+	case fmt.Stringer:
+		fmt.Println("case", s.String())
+	default:
+		fmt.Println("default")
+	}
+"""),
+        "conversion": ("", """	s := fmt.Stringer(N(2))
+	fmt.Println("conv", s.String())
+"""),
+        "composite-literal-type": ("", """	xs := []fmt.Stringer{N(3)}
+	fmt.Println("lit", len(xs), xs[0].String())
+"""),
+        "map-literal-type": ("", """	m := map[string]fmt.Stringer{"a": N(3)}
+	fmt.Println("map", len(m))
+"""),
+        "var-type": ("", """	var s fmt.Stringer = N(4)
+	fmt.Println("var", s.String())
+"""),
+        "package-var-type": ("var pv fmt.Stringer = N(5)\n\n", """	fmt.Println("pkgvar", pv.String())
+"""),
+        "param-type": ("func show(s fmt.Stringer) string { return s.String() }\n\n", """	fmt.Println("param", show(N(6)))
+"""),
+        "result-type": ("func mk() fmt.Stringer { return N(7) }\n\n", """	fmt.Println("result", mk().String())
+"""),
+        "field-type": ("type box struct{ s fmt.Stringer }\n\n", """	b := box{N(8)}
+	fmt.Println("field", b.s.String())
+"""),
+        "alias-type": ("type S = fmt.Stringer\n\n", """	var s S = N(9)
+	fmt.Println("alias", s.String())
+"""),
+        "func-literal-param-type": ("func run(f func(fmt.Stringer) string) string { return f(N(10)) }\n\n", """	fmt.Println("flit", run(func(s fmt.Stringer) string { return s.String() }))
+"""),
+        "pointer-and-chan-type": ("", """	var p *fmt.Stringer
+	ch := make(chan fmt.Stringer, 1)
+	ch <- N(11)
+	fmt.Println("ptr", p == nil, (<-ch).String())
+"""),
+    }
+    out = []
+    for k in sorted(pos):
+        pre, body = pos[k]
+        out.append(("raw-fmt-only-in-" + k, head + pre + "func main() {\n\tfmt.Println(\"start\")\n" + body + "\tfmt.Printf(\"%d\\n\", 1)\n}\n"))
+    return out
+
+
+RAW = RAW + type_position_family()
+
+
 # programs whose observable behaviour involves package initialisation order: built and run as
 # separate binaries (the batched runner executes all package-level initialisers before any Main)
 SOLO = {"raw-init-order"}
